@@ -151,3 +151,24 @@ Proof.
   intros. unfold validate_opt, epoch_validate_opt.
   destruct (basic_validate e); [|reflexivity]. destruct (e_epoch e =? cur); reflexivity.
 Qed.
+
+(* histories over one Checkers object with a Reader whose answer changes between calls: every answer is
+   [validate] under the Reader state current at THAT call; nothing is remembered from earlier calls *)
+Theorem history_pointwise : forall h st i,
+  nth_error (run_history st h) i =
+  option_map (fun x => validate (r_epoch (fst (fst x))) (r_vals (fst (fst x))) (snd (fst x)) (snd x))
+             (nth_error h i).
+Proof.
+  induction h as [|[[rs e] ps] rest IH]; intros st i.
+  - destruct i; reflexivity.
+  - cbn [run_history checkers_step]. destruct i as [|i]; [reflexivity|]. cbn [nth_error]. apply IH.
+Qed.
+
+(* in particular: an event accepted while its epoch was current is refused once the Reader has moved on *)
+Theorem history_late_event : forall st rs rs' e ps,
+  e_epoch e = r_epoch rs -> r_epoch rs' <> r_epoch rs -> basic_validate e = Ok ->
+  nth_error (run_history st [(rs, e, ps); (rs', e, ps)]) 1 = Some (Err NotRelevant).
+Proof.
+  intros st rs rs' e ps He Hne Hb. cbn. unfold validate. rewrite Hb. unfold epoch_validate.
+  rewrite He. destruct (N.eqb_spec (r_epoch rs) (r_epoch rs')) as [E|E]; [congruence | reflexivity].
+Qed.
